@@ -4,23 +4,40 @@
 package p11x
 
 import (
+	"bufio"
+	"bytes"
 	"context"
+	"errors"
+	"runtime/debug"
 	"crypto"
 	"crypto/ecdsa"
 	"crypto/elliptic"
 	"crypto/rand"
 	"crypto/rsa"
 	"crypto/sha256"
+	"crypto/x509"
+	"crypto/x509/pkix"
+	"encoding/binary"
+	"math/big"
+	"time"
 	"encoding/json"
 	"fmt"
 	"os"
 	"path/filepath"
 	"strings"
+	"sync"
+
+	"github.com/miekg/pkcs11"
 
 	"github.com/sassoftware/relic/v8/config"
+	"github.com/sassoftware/relic/v8/lib/passprompt"
+	"github.com/sassoftware/relic/v8/signers/sigerrors"
+	"github.com/sassoftware/relic/v8/token"
 	"github.com/sassoftware/relic/v8/token/p11token"
 
+	"verif/harness/internal/certs"
 	"verif/harness/internal/fakep11"
+	"verif/harness/internal/res"
 )
 
 var secretOf = map[string]string{"right": "123456", "wrong1": "654321", "wrong2": "111111", "empty": ""}
@@ -44,6 +61,7 @@ type world struct {
 	rsa  *rsa.PrivateKey
 	ec   *ecdsa.PrivateKey
 	cfgs map[string]*config.Config
+	ca   *certs.Cert
 }
 
 func newWorld() *world {
@@ -105,7 +123,7 @@ func Smoke(args []string) {
 	w.m.AddKeyPair(1, "k1", []byte{1}, w.rsa)
 	w.m.AddKeyPair(1, "k2", []byte{2}, w.ec)
 	w.m.Arm(fakep11.Knobs{Slots: []fakep11.Slot{{ID: 1, Present: true, Label: "tok", Serial: "0001"}}, RightPin: secretOf["right"]})
-	y := fmt.Sprintf("tokens:\n  hsm:\n    type: pkcs11\n    provider: %s\n    label: tok\n    pin: %q\nkeys:\n  k1:\n    token: hsm\n    label: k1\n  k2:\n    token: hsm\n    id: \"02\"\n", w.so, secretOf["right"])
+	y := fmt.Sprintf("tokens:\n  hsm:\n    type: pkcs11\n    provider: %s\n    label: tok\n    pin: %q\nkeys:\n  k1:\n    token: hsm\n    label: k1\n  k2:\n    token: hsm\n    id: \"02\"\n  gen:\n    token: hsm\n    label: gen\n  imp:\n    token: hsm\n    label: imp\n", w.so, secretOf["right"])
 	cfg := w.cfg("smoke", y)
 	tok, err := p11token.Open(cfg, "hsm", nil)
 	fmt.Println("open:", err)
@@ -131,6 +149,25 @@ func Smoke(args []string) {
 				fmt.Println(" verify:", ecdsa.VerifyASN1(pub, d[:], sig))
 			}
 		}
+		// management
+		for _, kn := range []string{"gen", "imp"} {
+			var k token.Key
+			var err error
+			if kn == "gen" {
+				k, err = tok.Generate(kn, token.KeyTypeRsa, 2048)
+			} else {
+				k, err = tok.Import(kn, w.ec)
+			}
+			fmt.Println(kn, err)
+			if err == nil {
+				leaf := certs.New(certs.Opt{CN: "p11 " + kn, Key: k}, nil)
+				fmt.Println(" importcert:", k.ImportCertificate(leaf.Cert))
+				fmt.Println(" importcert again:", k.ImportCertificate(leaf.Cert))
+				fmt.Println(" token importcert:", tok.ImportCertificate(leaf.Cert, "base"))
+			}
+		}
+		var lb bytes.Buffer
+		fmt.Println("list:", tok.ListKeys(token.ListOptions{Output: &lb}), lb.Len())
 		fmt.Println("close:", tok.Close())
 	}
 	for _, e := range w.m.Transcript() {
@@ -140,4 +177,762 @@ func Smoke(args []string) {
 	fmt.Println("open sessions:", w.m.OpenSessions())
 }
 
-var _ = strings.Contains
+
+// ---------------------------------------------------------------------------------------------
+// replay of P11Session behaviours
+
+type knobs struct {
+	SlotList    string     `json:"slotlist"`
+	Shape       string     `json:"shape"`
+	Sel         string     `json:"sel"`
+	TokenInfo   string     `json:"tokeninfo"`
+	OpenSession string     `json:"opensession"`
+	SessInfo    string     `json:"sessinfo"`
+	Pin         string     `json:"pin"`
+	Getter      string     `json:"getter"`
+	Answers     []string   `json:"answers"`
+	LoginRV     string     `json:"loginrv"`
+	Tries0      int        `json:"tries0"`
+	KeyShape    string     `json:"keyshape"`
+	KeySel      string     `json:"keysel"`
+	FindFault   string     `json:"findfault"`
+	Ping        bool       `json:"ping"`
+	Signs       [][]string `json:"signs"`
+	Mgmt        string     `json:"mgmt"`
+	Certs       []string   `json:"certs"`
+}
+
+type invRec struct {
+	Pub       int `json:"pub"`
+	Priv      int `json:"priv"`
+	KeyCert   int `json:"keycert"`
+	ChainCert int `json:"chaincert"`
+}
+
+type outRec struct {
+	Call   string `json:"call"`
+	Result string `json:"result"`
+}
+
+type beh struct {
+	K     knobs           `json:"k"`
+	Tr    []fakep11.Event `json:"tr"`
+	Asked int             `json:"asked"`
+	Out   []outRec        `json:"out"`
+	Inv   invRec          `json:"inv"`
+}
+
+type getter struct {
+	answers []string
+	n       int
+	prompts []string
+}
+
+func (g *getter) GetPasswd(prompt string) (string, error) {
+	g.prompts = append(g.prompts, prompt)
+	a := "empty"
+	if g.n < len(g.answers) {
+		a = g.answers[g.n]
+	}
+	g.n++
+	return secretOf[a], nil
+}
+
+var t1 = fakep11.Slot{Present: true, Label: "tok", Serial: "0001"}
+var t2 = fakep11.Slot{Present: true, Label: "tok", Serial: "0002"}
+var t3 = fakep11.Slot{Present: true, Label: "other", Serial: "0003"}
+var absent = fakep11.Slot{}
+
+func slotsOf(shape string) []fakep11.Slot {
+	var l []fakep11.Slot
+	switch shape {
+	case "single":
+		l = []fakep11.Slot{t1}
+	case "absent-first":
+		l = []fakep11.Slot{absent, t1}
+	case "other-first":
+		l = []fakep11.Slot{t3, t1}
+	case "same-label":
+		l = []fakep11.Slot{t1, t2}
+	case "only-other":
+		l = []fakep11.Slot{t3}
+	case "only-absent":
+		l = []fakep11.Slot{absent}
+	}
+	for i := range l {
+		l[i].ID = uint64(i)
+	}
+	return l
+}
+
+var sha256Prefix = []byte{0x30, 0x31, 0x30, 0x0d, 0x06, 0x09, 0x60, 0x86, 0x48, 0x01, 0x65, 0x03, 0x04, 0x02, 0x01, 0x05, 0x00, 0x04, 0x20}
+
+func digestOf(i int) []byte {
+	d := sha256.Sum256([]byte(fmt.Sprintf("digest-%d", i)))
+	return d[:]
+}
+
+func digestName(b []byte) string {
+	pre := ""
+	if len(b) == len(sha256Prefix)+32 && string(b[:len(sha256Prefix)]) == string(sha256Prefix) {
+		pre, b = "digestinfo:", b[len(sha256Prefix):]
+	}
+	for i := 1; i <= 3; i++ {
+		if string(b) == string(digestOf(i)) {
+			return fmt.Sprintf("%sd%d", pre, i)
+		}
+	}
+	return fmt.Sprintf("%sunknown:%x", pre, b)
+}
+
+// objects for a key shape, on every present token (the same key material: which token is used shows in the transcript)
+func (w *world) loadKeys(shape string, slots []fakep11.Slot) {
+	w.m.ClearObjects()
+	for _, s := range slots {
+		if !s.Present {
+			continue
+		}
+		id := []byte{1}
+		switch shape {
+		case "none":
+		case "ec", "ec-unknown-curve", "ec-bad-point":
+			pub, _ := w.m.AddKeyPair(s.ID, "k1", id, w.ec)
+			if shape == "ec-unknown-curve" {
+				pub.Attrs[fakep11.CKA_EC_PARAMS] = []byte{0x06, 0x03, 0x2a, 0x03, 0x04}
+			}
+			if shape == "ec-bad-point" {
+				pub.Attrs[fakep11.CKA_EC_POINT] = []byte{0x04, 0x03, 0x04, 0x01, 0x02}
+			}
+		default:
+			pub, priv := w.m.AddKeyPair(s.ID, "k1", id, w.rsa)
+			switch shape {
+			case "dsa":
+				priv.Attrs[fakep11.CKA_KEY_TYPE] = []byte{1, 0, 0, 0, 0, 0, 0, 0}
+				pub.Attrs[fakep11.CKA_KEY_TYPE] = priv.Attrs[fakep11.CKA_KEY_TYPE]
+			case "two-private":
+				attrs := map[uint64][]byte{}
+				for k, v := range priv.Attrs {
+					attrs[k] = v
+				}
+				w.m.AddObject(s.ID, attrs, w.rsa)
+			case "no-public":
+				delete(pub.Attrs, fakep11.CKA_CLASS) // no longer a public key object
+			case "no-keytype":
+				delete(priv.Attrs, fakep11.CKA_KEY_TYPE)
+			case "rsa-no-modulus":
+				delete(pub.Attrs, fakep11.CKA_MODULUS)
+			case "rsa-exponent-1":
+				pub.Attrs[fakep11.CKA_PUBLIC_EXPONENT] = []byte{1}
+			}
+		}
+	}
+}
+
+func (w *world) sessionCfg(k knobs) *config.Config {
+	name := strings.Join([]string{k.Sel, k.Pin, k.KeySel}, "-")
+	var y strings.Builder
+	fmt.Fprintf(&y, "tokens:\n  hsm:\n    type: pkcs11\n    provider: %s\n", w.so)
+	if k.Sel == "label" || k.Sel == "both" {
+		y.WriteString("    label: tok\n")
+	}
+	if k.Sel == "serial" || k.Sel == "both" {
+		y.WriteString("    serial: \"0001\"\n")
+	}
+	if k.Pin != "none" {
+		fmt.Fprintf(&y, "    pin: %q\n", secretOf[k.Pin])
+	}
+	y.WriteString("keys:\n  k:\n    token: hsm\n")
+	switch k.KeySel {
+	case "label":
+		y.WriteString("    label: k1\n")
+	case "id":
+		y.WriteString("    id: \"01\"\n")
+	case "both":
+		y.WriteString("    label: k1\n    id: \"01\"\n")
+	case "bad-id":
+		y.WriteString("    id: \"zz\"\n")
+	}
+	// keys for generation / import (one without the label those calls need)
+	y.WriteString("  gen:\n    token: hsm\n    label: gen\n  imp:\n    token: hsm\n    label: imp\n  nolabel:\n    token: hsm\n    id: \"07\"\n")
+	return w.cfg(name, y.String())
+}
+
+// the last call that failed (Open's own clean-up aside): tells which step an opaque CK_RV error belongs to
+func lastFailed(tr []fakep11.Event) string {
+	for i := len(tr) - 1; i >= 0; i-- {
+		if tr[i].RV != "OK" && tr[i].Fn != "CloseSession" {
+			return tr[i].Fn
+		}
+	}
+	return ""
+}
+
+func classify(call string, err error, tr []fakep11.Event) string {
+	if err == nil {
+		return "ok"
+	}
+	s := err.Error()
+	var pi sigerrors.PinIncorrectError
+	var nf sigerrors.KeyNotFoundError
+	var ck pkcs11.Error
+	switch {
+	case strings.HasPrefix(s, "PANIC"):
+		return s
+	case errors.As(err, &pi):
+		return "pin-incorrect"
+	case errors.As(err, &nf):
+		return "not-found"
+	case strings.Contains(s, "No token found"):
+		return "no-token"
+	case strings.Contains(s, "Multiple tokens matched"):
+		return "multiple-tokens"
+	case strings.Contains(s, "none was provided"):
+		return "no-provider"
+	case strings.EqualFold(s, "aborted"):
+		return "aborted"
+	case strings.Contains(s, "Multiple token objects"):
+		return "multiple"
+	case strings.Contains(s, "encoding/hex"):
+		return "bad-id"
+	case strings.Contains(s, "CKA_KEY_TYPE is missing"):
+		return "keytype-missing"
+	case strings.Contains(s, "Unsupported key type"):
+		return "unsupported-keytype"
+	case strings.Contains(s, "unable to retrieve RSA public key"):
+		return "rsa-pub-missing"
+	case strings.Contains(s, "RSA exponent is out of bounds"):
+		return "rsa-exponent"
+	case strings.Contains(s, "Unable to retrieve ECDSA public key"):
+		return "ec-pub-missing"
+	case strings.Contains(s, "Invalid elliptic curve point"):
+		return "ec-point"
+	case strings.Contains(s, "nsupported ECDSA curve") || strings.Contains(s, "nsupported curve"):
+		return "ec-curve"
+	case strings.Contains(s, "signer options are required"):
+		return "opts-required"
+	case strings.Contains(s, "'label' must be defined") || s == "label is required":
+		return "label-required"
+	case strings.Contains(s, "unsupported number of bits"):
+		return "bad-bits"
+	case errors.Is(err, sigerrors.ErrExist):
+		return "exists"
+	case errors.As(err, &ck):
+		switch lastFailed(tr) {
+		case "GetSlotList":
+			return "slotlist-failed"
+		case "GetTokenInfo":
+			return "tokeninfo-failed"
+		case "OpenSession":
+			return "opensession-failed"
+		case "GetSessionInfo":
+			return "sessioninfo-failed"
+		case "Login":
+			return "login-failed"
+		case "FindObjectsInit", "FindObjects", "FindObjectsFinal":
+			return "find-failed"
+		case "GenerateKeyPair":
+			return "generate-failed"
+		case "CreateObject":
+			if call == "cert" {
+				return "create-failed"
+			}
+			return "import-failed"
+		case "SignInit":
+			return "signinit-failed"
+		case "Sign":
+			return "sign-failed"
+		}
+	}
+	return "other: " + s
+}
+
+func guard(fn func() error) (err error) {
+	defer func() {
+		if p := recover(); p != nil {
+			site := ""
+			for _, l := range strings.Split(string(debug.Stack()), "\n") {
+				if strings.Contains(l, "relic/v8/") && !strings.Contains(l, "verif/harness") {
+					site = strings.TrimSpace(l)
+					break
+				}
+			}
+			err = fmt.Errorf("PANIC: %v at %s", p, site)
+		}
+	}()
+	return fn()
+}
+
+func (w *world) run(b *beh) (tr []fakep11.Event, asked int, out []outRec, leaked int) {
+	k := b.K
+	slots := slotsOf(k.Shape)
+	w.loadKeys(k.KeyShape, slots)
+	fail := map[string]string{}
+	if k.SlotList == "err" {
+		fail["GetSlotList"] = "DEVICE_ERROR"
+	}
+	if k.TokenInfo == "err" {
+		for i, s := range slots {
+			if s.Present {
+				fail[fmt.Sprintf("GetTokenInfo#%d", i+1)] = "DEVICE_ERROR"
+				break
+			}
+		}
+	}
+	if k.OpenSession == "err" {
+		fail["OpenSession"] = "TOKEN_NOT_RECOGNIZED"
+	}
+	if k.SessInfo == "err" {
+		fail["GetSessionInfo#1"] = "DEVICE_ERROR"
+	}
+	switch k.LoginRV {
+	case "already":
+		fail["Login"] = "USER_ALREADY_LOGGED_IN"
+	case "device-error":
+		fail["Login"] = "DEVICE_ERROR"
+	}
+	switch k.FindFault {
+	case "init-err":
+		fail["FindObjectsInit#1"] = "DEVICE_ERROR"
+	case "find-err":
+		fail["FindObjects#1"] = "DEVICE_ERROR"
+	case "final-err":
+		fail["FindObjectsFinal#1"] = "DEVICE_ERROR"
+	}
+	nInit, nSign := 0, 0
+	for _, sg := range k.Signs {
+		if sg[0] == "nohash" && k.KeyShape == "rsa" {
+			continue
+		}
+		nInit++
+		if sg[1] == "init-err" {
+			fail[fmt.Sprintf("SignInit#%d", nInit)] = "KEY_HANDLE_INVALID"
+			continue
+		}
+		nSign++
+		if sg[1] == "sign-err" {
+			fail[fmt.Sprintf("Sign#%d", nSign)] = "DEVICE_ERROR"
+		}
+	}
+	switch k.Mgmt {
+	case "gen-rsa-fallback":
+		fail["GenerateKeyPair#1"] = "MECHANISM_INVALID"
+	case "gen-err":
+		fail["GenerateKeyPair#1"] = "DEVICE_ERROR"
+	case "imp-priv-refused":
+		fail["CreateObject#2"] = "TEMPLATE_INCONSISTENT"
+	case "imp-priv-err":
+		fail["CreateObject#2"] = "DEVICE_ERROR"
+	case "imp-pub-err":
+		fail["CreateObject#1"] = "DEVICE_ERROR"
+	}
+	nCreate := 0
+	if strings.HasPrefix(k.Mgmt, "imp-") {
+		nCreate = 2
+	}
+	haveKeyCert, haveChain := false, false
+	for _, c := range k.Certs {
+		switch c {
+		case "key", "key-err":
+			if haveKeyCert {
+				continue
+			}
+			nCreate++
+			if c == "key-err" {
+				fail[fmt.Sprintf("CreateObject#%d", nCreate)] = "DEVICE_ERROR"
+			} else {
+				haveKeyCert = true
+			}
+		case "token":
+			if !haveChain { // a second import of the same chain certificate finds the first and creates nothing
+				nCreate++
+				haveChain = true
+			}
+		}
+	}
+	w.m.Arm(fakep11.Knobs{Slots: slots, Tries0: k.Tries0, RightPin: secretOf["right"], LoggedIn: k.SessInfo == "user", Fail: fail})
+	cfg := w.sessionCfg(k)
+	var pg passprompt.PasswordGetter
+	var g *getter
+	if k.Getter == "present" {
+		g = &getter{answers: k.Answers}
+		pg = g
+	}
+	out = []outRec{}
+	var tok *p11token.Token
+	err := guard(func() (err error) { tok, err = p11token.Open(cfg, "hsm", pg); return })
+	out = append(out, outRec{"open", classify("open", err, w.m.Transcript())})
+	if err == nil {
+		if k.Ping {
+			err = guard(func() error { return tok.Ping(context.Background()) })
+			out = append(out, outRec{"ping", classify("ping", err, w.m.Transcript())})
+		}
+		var key token.Key
+		if k.Mgmt != "none" && k.Mgmt != "" {
+			err = guard(func() (err error) {
+				switch k.Mgmt {
+				case "gen-rsa", "gen-rsa-fallback", "gen-err":
+					key, err = tok.Generate("gen", token.KeyTypeRsa, 2048)
+				case "gen-ec":
+					key, err = tok.Generate("gen", token.KeyTypeEcdsa, 256)
+				case "gen-nolabel":
+					key, err = tok.Generate("nolabel", token.KeyTypeRsa, 2048)
+				case "gen-bad-bits":
+					key, err = tok.Generate("gen", token.KeyTypeRsa, 512)
+				case "imp-rsa", "imp-priv-refused", "imp-priv-err", "imp-pub-err":
+					key, err = tok.Import("imp", w.rsa)
+				case "imp-ec":
+					key, err = tok.Import("imp", w.ec)
+				case "imp-nolabel":
+					key, err = tok.Import("nolabel", w.rsa)
+				}
+				return
+			})
+			out = append(out, outRec{"mgmt", classify("mgmt", err, w.m.Transcript())})
+			if err == nil {
+				// the new key must work: sign and verify (not part of the compared transcript: done on a second session below)
+				leaf := w.leafFor(key)
+				for _, c := range k.Certs {
+					err = guard(func() error {
+						switch c {
+						case "key", "key-err":
+							return key.ImportCertificate(leaf)
+						case "token":
+							return tok.ImportCertificate(leaf, "base")
+						default:
+							return tok.ImportCertificate(leaf, "")
+						}
+					})
+					out = append(out, outRec{"cert", classify("cert", err, w.m.Transcript())})
+				}
+			}
+			err = guard(func() error { return tok.Close() })
+			out = append(out, outRec{"close", classify("close", err, w.m.Transcript())})
+			if g != nil {
+				asked = len(g.prompts)
+			}
+			return w.m.Transcript(), asked, out, w.m.OpenSessions()
+		}
+		err = guard(func() (err error) { key, err = tok.GetKey(context.Background(), "k"); return })
+		out = append(out, outRec{"getkey", classify("getkey", err, w.m.Transcript())})
+		if err == nil {
+			for i, sg := range k.Signs {
+				dg := digestOf(i + 1)
+				var opts crypto.SignerOpts = crypto.SHA256
+				switch sg[0] {
+				case "pss-hash":
+					opts = &rsa.PSSOptions{Hash: crypto.SHA256, SaltLength: rsa.PSSSaltLengthEqualsHash}
+				case "pss-auto":
+					opts = &rsa.PSSOptions{Hash: crypto.SHA256, SaltLength: rsa.PSSSaltLengthAuto}
+				case "nohash":
+					opts = crypto.Hash(0)
+				}
+				var sig []byte
+				err = guard(func() (err error) { sig, err = key.SignContext(context.Background(), dg, opts); return })
+				if err == nil {
+					switch pub := key.Public().(type) {
+					case *rsa.PublicKey:
+						if pss, ok := opts.(*rsa.PSSOptions); ok {
+							err = rsa.VerifyPSS(pub, crypto.SHA256, dg, sig, &rsa.PSSOptions{Hash: crypto.SHA256, SaltLength: pss.SaltLength})
+						} else {
+							err = rsa.VerifyPKCS1v15(pub, crypto.SHA256, dg, sig)
+						}
+					case *ecdsa.PublicKey:
+						if !ecdsa.VerifyASN1(pub, dg, sig) {
+							err = errors.New("ECDSA signature does not verify")
+						}
+					}
+					if err != nil {
+						err = fmt.Errorf("signature returned does not verify under the digest given: %w", err)
+					}
+				}
+				out = append(out, outRec{"sign", classify("sign", err, w.m.Transcript())})
+			}
+		}
+		err = guard(func() error { return tok.Close() })
+		out = append(out, outRec{"close", classify("close", err, w.m.Transcript())})
+	}
+	if g != nil {
+		asked = len(g.prompts)
+	}
+	return w.m.Transcript(), asked, out, w.m.OpenSessions()
+}
+
+// a certificate for a key that lives on the token, signed by a harness CA (signing with the token key itself would
+// add calls to the transcript)
+func (w *world) leafFor(key token.Key) *x509.Certificate {
+	if w.ca == nil {
+		w.ca = certs.New(certs.Opt{CN: "p11 ca", CA: true}, nil)
+	}
+	tmpl := &x509.Certificate{SerialNumber: big.NewInt(time.Now().UnixNano()), Subject: pkix.Name{CommonName: "p11 leaf"},
+		NotBefore: time.Now().Add(-time.Hour), NotAfter: time.Now().Add(time.Hour)}
+	der, err := x509.CreateCertificate(rand.Reader, tmpl, w.ca.Cert, key.Public(), w.ca.Key)
+	if err != nil {
+		panic(err)
+	}
+	c, err := x509.ParseCertificate(der)
+	if err != nil {
+		panic(err)
+	}
+	return c
+}
+
+// inventory: what the management calls left on the token
+func (w *world) inventory() invRec {
+	var r invRec
+	for _, o := range w.m.Objects() {
+		label := string(o.Attrs[fakep11.CKA_LABEL])
+		cls := uint64(99)
+		if c := o.Attrs[fakep11.CKA_CLASS]; len(c) == 8 {
+			cls = binary.LittleEndian.Uint64(c)
+		}
+		switch {
+		case (label == "gen" || label == "imp") && cls == fakep11.CKO_PUBLIC_KEY:
+			r.Pub++
+		case (label == "gen" || label == "imp") && cls == fakep11.CKO_PRIVATE_KEY:
+			r.Priv++
+		case (label == "gen" || label == "imp") && cls == fakep11.CKO_CERTIFICATE:
+			r.KeyCert++
+		case strings.HasPrefix(label, "base_chain_") && cls == fakep11.CKO_CERTIFICATE:
+			r.ChainCert++
+		}
+	}
+	return r
+}
+
+func readBehs(path string) []*beh {
+	fh, err := os.Open(path)
+	if err != nil {
+		panic(err)
+	}
+	defer fh.Close()
+	sc := bufio.NewScanner(fh)
+	sc.Buffer(make([]byte, 1<<20), 1<<24)
+	var out []*beh
+	for sc.Scan() {
+		line := bytes.TrimSpace(sc.Bytes())
+		if len(line) == 0 {
+			continue
+		}
+		b := new(beh)
+		if err := json.Unmarshal(line, b); err != nil {
+			panic(err)
+		}
+		out = append(out, b)
+	}
+	return out
+}
+
+// Replay: vh p11-replay <behaviours.jsonl> [transcripts-out.ndjson]
+func Replay(args []string) {
+	r := res.New()
+	w := newWorld()
+	defer w.close()
+	w.m.DigestName = digestName
+	behs := readBehs(args[0])
+	var tout *bufio.Writer
+	if len(args) > 1 {
+		f, err := os.Create(args[1])
+		if err != nil {
+			panic(err)
+		}
+		defer f.Close()
+		tout = bufio.NewWriter(f)
+	}
+	nlog := 0
+	stride := len(behs)/400 + 1
+	for bi, b := range behs {
+		tr, asked, out, leaked := w.run(b)
+		// the library is loaded and initialised once per process: not part of a session's transcript
+		if len(tr) > 0 && tr[0].Fn == "Initialize" {
+			tr = tr[1:]
+		}
+		if tr == nil {
+			tr = []fakep11.Event{}
+		}
+		r.Eval(len(b.Tr) > 8)
+		r.Count("open_"+b.Out[0].Result, 1)
+		key := map[string]string{"engine": "p11"}
+		rep := map[string]any{"behaviour": b, "transcript": tr, "asked": asked, "out": out}
+		tj, _ := json.Marshal(tr)
+		wj, _ := json.Marshal(b.Tr)
+		oj, _ := json.Marshal(out)
+		woj, _ := json.Marshal(b.Out)
+		kj, _ := json.Marshal(b.K)
+		panicked := ""
+		for _, o := range out {
+			if strings.HasPrefix(o.Result, "PANIC") {
+				panicked = o.Call + ": " + o.Result
+			}
+		}
+		switch {
+		case panicked != "":
+			key["kind"] = "panic"
+			r.Fail(key, rep, "PKCS#11 session %s: %s", kj, panicked)
+		case !bytes.Equal(tj, wj):
+			key["kind"] = "transcript-differs"
+			r.Fail(key, rep, "PKCS#11 session %s: the library saw %s; the specification's transcript is %s", kj, tj, wj)
+		case !bytes.Equal(oj, woj):
+			key["kind"] = "outcome-differs"
+			r.Fail(key, rep, "PKCS#11 session %s: the calls returned %s; the specification has %s", kj, oj, woj)
+		case asked != b.Asked:
+			key["kind"] = "prompts-differ"
+			r.Fail(key, rep, "PKCS#11 session %s: %d prompts shown, the specification has %d", kj, asked, b.Asked)
+		case w.inventory() != b.Inv:
+			key["kind"] = "objects-differ"
+			r.Fail(key, rep, "PKCS#11 session %s: the token now holds %+v (public, private, key certificate, chain certificate objects made by the calls); the specification has %+v", kj, w.inventory(), b.Inv)
+		case leaked != 0:
+			key["kind"] = "session-left-open"
+			r.Fail(key, rep, "PKCS#11 session %s: %d session(s) still open on the token after the calls ended (%s)", kj, leaked, oj)
+		default:
+			if len(b.Tr) > 20 {
+				r.Sample(map[string]any{"k": b.K, "out": out})
+			}
+		}
+		if tout != nil && bi%stride == 0 && nlog < 400 {
+			nlog++
+			json.NewEncoder(tout).Encode(fakep11.Event{Fn: "reset"})
+			for _, e := range tr {
+				json.NewEncoder(tout).Encode(e)
+			}
+		}
+	}
+	if tout != nil {
+		tout.Flush()
+	}
+	r.Extra["behaviours_read"] = len(behs)
+	r.Extra["transcripts_logged"] = nlog
+	r.Emit()
+}
+
+// Concurrent: vh p11-concurrent <rounds> <trace-out.ndjson>
+// Four goroutines (a, b on the RSA key k1; c, d on the EC key k2) sign distinct digests through ONE token object.
+func Concurrent(args []string) {
+	r := res.New()
+	nr := 10
+	fmt.Sscan(args[0], &nr)
+	w := newWorld()
+	defer w.close()
+	f, err := os.Create(args[1])
+	if err != nil {
+		panic(err)
+	}
+	bw := bufio.NewWriter(f)
+	enc := json.NewEncoder(bw)
+	var lmu sync.Mutex
+	dig := func(s string, rd int) []byte {
+		d := sha256.Sum256([]byte(fmt.Sprintf("%s/%d", s, rd)))
+		return d[:]
+	}
+	signers := []string{"a", "b", "c", "d"}
+	names := map[string][2]string{}
+	for _, s := range signers {
+		for rd := 1; rd <= nr; rd++ {
+			names[string(dig(s, rd))] = [2]string{s, fmt.Sprint(rd)}
+		}
+	}
+	owner := func(b []byte) (string, int, bool) {
+		if len(b) == len(sha256Prefix)+32 {
+			b = b[len(sha256Prefix):]
+		}
+		n, ok := names[string(b)]
+		rd := 0
+		fmt.Sscan(n[1], &rd)
+		return n[0], rd, ok
+	}
+	w.m.DigestName = func(b []byte) string {
+		s, rd, ok := owner(b)
+		if !ok {
+			return "unknown"
+		}
+		return fmt.Sprintf("%s/%d", s, rd)
+	}
+	w.m.OnEvent = func(e fakep11.Event) {
+		switch e.Fn {
+		case "SignInit":
+			key := e.Arg[strings.LastIndex(e.Arg, ":")+1:]
+			lmu.Lock()
+			enc.Encode(map[string]any{"cmd": "SIGNINIT", "key": key, "rv": e.RV})
+			lmu.Unlock()
+		case "Sign":
+			var s string
+			var rd int
+			if parts := strings.SplitN(e.Arg, "/", 2); len(parts) == 2 {
+				s = parts[0]
+				fmt.Sscan(parts[1], &rd)
+			}
+			lmu.Lock()
+			enc.Encode(map[string]any{"cmd": "SIGN", "s": s, "r": rd, "rv": e.RV})
+			lmu.Unlock()
+		}
+	}
+	slots := slotsOf("single")
+	w.m.ClearObjects()
+	w.m.AddKeyPair(0, "k1", []byte{1}, w.rsa)
+	w.m.AddKeyPair(0, "k2", []byte{2}, w.ec)
+	w.m.Arm(fakep11.Knobs{Slots: slots, RightPin: secretOf["right"]})
+	y := fmt.Sprintf("tokens:\n  hsm:\n    type: pkcs11\n    provider: %s\n    label: tok\n    pin: %q\nkeys:\n  k1:\n    token: hsm\n    label: k1\n  k2:\n    token: hsm\n    label: k2\n", w.so, secretOf["right"])
+	cfg := w.cfg("concurrent", y)
+	tok, err := p11token.Open(cfg, "hsm", nil)
+	if err != nil {
+		panic(err)
+	}
+	keys := map[string]token.Key{}
+	for _, kn := range []string{"k1", "k2"} {
+		k, err := tok.GetKey(context.Background(), kn)
+		if err != nil {
+			panic(err)
+		}
+		keys[kn] = k
+	}
+	var wg sync.WaitGroup
+	for _, s := range signers {
+		wg.Add(1)
+		go func(s string) {
+			defer wg.Done()
+			kn := "k1"
+			if s == "c" || s == "d" {
+				kn = "k2"
+			}
+			key := keys[kn]
+			for rd := 1; rd <= nr; rd++ {
+				dg := dig(s, rd)
+				sig, err := key.SignContext(context.Background(), dg, crypto.SHA256)
+				r.Eval(true)
+				if err != nil {
+					r.Fail(map[string]string{"engine": "p11-concurrent", "kind": "sign-error"}, map[string]any{"signer": s, "round": rd}, "signer %s round %d (%s): %v", s, rd, kn, err)
+					continue
+				}
+				ds, dr := "none", 0
+				for nm, ow := range names {
+					ok := false
+					switch pub := key.Public().(type) {
+					case *rsa.PublicKey:
+						ok = rsa.VerifyPKCS1v15(pub, crypto.SHA256, []byte(nm), sig) == nil
+					case *ecdsa.PublicKey:
+						ok = ecdsa.VerifyASN1(pub, []byte(nm), sig)
+					}
+					if ok {
+						ds = ow[0]
+						fmt.Sscan(ow[1], &dr)
+						break
+					}
+				}
+				lmu.Lock()
+				enc.Encode(map[string]any{"cmd": "RET", "s": s, "r": rd, "ds": ds, "dr": dr})
+				lmu.Unlock()
+				if ds != s || dr != rd {
+					r.Fail(map[string]string{"engine": "p11-concurrent", "kind": "foreign-digest-signed"}, map[string]any{"signer": s, "round": rd, "signed": fmt.Sprintf("%s/%d", ds, dr)},
+						"signer %s asked for a signature over its digest of round %d and received a signature that verifies over %s/%d", s, rd, ds, dr)
+				}
+			}
+		}(s)
+	}
+	wg.Wait()
+	tok.Close()
+	lmu.Lock()
+	bw.Flush()
+	f.Close()
+	lmu.Unlock()
+	r.Count("signatures", 4*nr)
+	r.Emit()
+}
